@@ -102,6 +102,17 @@ def key_gated_here(f: FuncInfo, call: ast.Call, key: ast.expr) -> str | None:
                 return f"loop over active keys `{norm(node.iter)[:40]}`"
             if isinstance(node.iter, ast.Name) and node.iter.id in f.params:
                 return f"param:{node.iter.id}"
+        # (1b) `for key, x in pairs` where pairs = [(k, g(k)) for k in KEYS]: the first component ranges over KEYS
+        if isinstance(node, ast.For) and fld == "body" and isinstance(node.target, ast.Tuple) and node.target.elts and isinstance(node.target.elts[0], ast.Name) \
+                and node.target.elts[0].id == ktxt and isinstance(node.iter, ast.Name):
+            defs = [s_.value for s_ in ast.walk(f.node) if isinstance(s_, ast.Assign) and any(isinstance(t, ast.Name) and t.id == node.iter.id for t in s_.targets)]
+            if len(defs) == 1 and isinstance(defs[0], (ast.ListComp, ast.GeneratorExp)) and len(defs[0].generators) == 1 and not defs[0].generators[0].ifs \
+                    and isinstance(defs[0].elt, ast.Tuple) and defs[0].elt.elts and norm(defs[0].elt.elts[0]) == norm(defs[0].generators[0].target):
+                src = defs[0].generators[0].iter
+                if active_derived(f, src):
+                    return f"loop over pairs built from active keys `{norm(src)[:40]}`"
+                if isinstance(src, ast.Name) and src.id in f.params:
+                    return f"param:{src.id}"
     # (2) an enclosing `if key in <active>` or a flag assigned from such a test
     for fld, node in enc:
         if isinstance(node, ast.If) and fld == "body":
